@@ -176,6 +176,28 @@ var wideChannels = []int{9, 17, 33, 63, 64, 65, 66, 127, 129, 255, 256, 257, 100
 
 // driveWideFrames: buffers with many channels and two or three frames; every operation that iterates over channels.
 func driveWideFrames(s *shardSet, rng *rand.Rand, thorough bool) {
+	// many channels AND many frames, neither a multiple of 16 (or 8): full-length striped writes and reads (a tiled
+	// transpose must also do the ragged right and bottom edges and the corner)
+	for i, sh := range [][2]int{{17, 17}, {33, 18}, {19, 35}, {9, 41}} {
+		if !thorough && i >= 2 && rng.Intn(2) == 0 {
+			continue
+		}
+		ch, fr := sh[0], sh[1]
+		ty := BuiltinTypes[(i*5+rng.Intn(13))%13]
+		kt := KindOf(ty)
+		w := s.Next()
+		w.Reset()
+		w.Alloc(ty, ch, fr, fr)
+		w.Write(0, kt, w.stamps(ch*fr)) // old contents
+		rows := make([][]int64, ch)
+		lens := make([]int, ch)
+		for c := range rows {
+			rows[c] = w.stamps(fr)
+			lens[c] = fr
+		}
+		w.WriteStriped(0, kt, rows, make([]bool, ch))
+		w.ReadStriped(0, kt, lens, make([]bool, ch))
+	}
 	for i, ch := range wideChannels {
 		if !thorough && !(ch == 65 || ch == 257 || rng.Intn(3) == 0) {
 			continue
